@@ -221,7 +221,7 @@ func shapeOf(src string) string {
 func init() {
 	c09.nDirected = c09nExec
 	c09.directed = c09execCase
-	const ruleCommon = "each model case is a generated template set executed by the real engine and by the reference evaluator (identical output, errors, probe call log, caller VarMap); "
+	const ruleCommon = "each model case is a generated template set executed by the real engine and by the reference evaluator (identical output, errors, probe call log, caller VarMap), multi-file sets also as a sequence of entry points on one shared Set; include targets may share a base name across directories; "
 	registerProg(c09, "reference-evaluator monitor for include/includeIfExists/exec call sites plus a probe-log oracle for exec return values",
 		ruleCommon+"include/exec/includeIfExists call sites at depth <=3 inside range, blocks, try and other includes, static and computed names (also one include action executed with a different name per loop iteration), relative and absolute spellings, with/without explicit context, targets that extend 1-2 levels; "+
 			"every include is preceded by a declaration of an includer variable the target prints, and followed by isset() of a variable the target declares (must be false); "+
